@@ -17,7 +17,7 @@ REQUIRED_MONITORS = ["step@SingleSetup(enumerated)", "step@MultiSetup_PreGER(enu
                      "probe-algorithm binding", "user arrays + initial copy unchanged"]
 ALL_STATES = ["filter then decimate", "decimate then decimate", "rollback after decimate", "decimate with ftype", "decimate with n", "decimate with zero_phase=False",
               "detrend type=constant", "bandpass filter", "3 datasets", "1 dataset", "refs listed out of order", "operation legitimately rejected by scipy"]
-REQUIRED_STATES = ["filter frequencies given as a float array", "filter then decimate", "decimate then decimate", "rollback after decimate", "decimate with ftype", "decimate with n", "decimate with zero_phase=False",
+REQUIRED_STATES = ["equal record lengths that are not adjacent (a, b, a)", "filter frequencies given as a float array", "filter then decimate", "decimate then decimate", "rollback after decimate", "decimate with ftype", "decimate with n", "decimate with zero_phase=False",
                    "detrend type=constant", "bandpass filter", "refs listed out of order"]
 RULE = ("histories over {decimate(q[,ftype][,n][,zero_phase]), detrend([type]), filter(Wn,order,btype), rollback}, with a probe algorithm added after every "
         "step: ALL sequences up to length 3 (quick) / 4 (thorough) over 7 concrete operations on a SingleSetup and on a 2-dataset PreGER object, plus "
@@ -347,6 +347,8 @@ def run_sampled(ctx, case, kind):
         refs = None
     else:
         nset = int(rng.integers(1, 4))
+        if case["k"] % 4 == 1:
+            nset = int(rng.integers(3, 6))  # a campaign of three to five setups
         nref = int(rng.integers(1, 4))
         d0, refs = [], []
         for _ in range(nset):
@@ -354,11 +356,16 @@ def run_sampled(ctx, case, kind):
             nch = max(nch, nref + 1)
             d0.append(rng.standard_normal((int(rng.integers(2500, 4000)), nch)))
             refs.append([int(x) for x in rng.permutation(nch)[:nref]])
-        if nset >= 2 and rng.random() < 0.4:
+        if nset >= 3 and case["k"] % 8 == 1:
+            # some setups recorded for the same time, with a different one in between (lengths a, b, a, ...): every dataset stays in its place
+            n0 = min(a.shape[0] for a in d0)
+            d0 = [a[:n0].copy() if j % 2 == 0 else a[: n0 - 137 * (1 + j // 2)].copy() for j, a in enumerate(d0)]
+            ctx.state("equal record lengths that are not adjacent (a, b, a)")
+        elif nset >= 2 and rng.random() < 0.4:
             n0 = min(a.shape[0] for a in d0)
             d0 = [a[:n0].copy() for a in d0]
             ctx.state("datasets of equal length" + (", different channel counts" if len({a.shape[1] for a in d0}) > 1 else ""))
-        ctx.state({1: "1 dataset", 3: "3 datasets"}.get(nset, "2 datasets"))
+        ctx.state({1: "1 dataset", 2: "2 datasets", 3: "3 datasets"}.get(nset, "4-5 datasets"))
         if any(r != sorted(r) for r in refs):
             ctx.state("refs listed out of order")
     if rng.random() < 0.2:
